@@ -1195,6 +1195,11 @@ func (p *c08) Run(c *verifsim.Chooser, st *Stats, render bool) *Outcome {
 			od := ""
 			if c.Intn(3) == 1 {
 				ob := p.objs[c.Intn(len(p.objs))]
+				if strings.HasPrefix(ob.name, "forty ") {
+					// (a generated script may print any member: the 2^40-path
+					// objects stay with the table scripts that can afford them)
+					ob = p.objs[0]
+				}
 				obj, od = ob.v, ob.name
 			} else {
 				obj, od = genObject(c)
